@@ -411,7 +411,8 @@ class Struct(metaclass=MetaStruct):
         return self._buffer, self._offset
 
     def __setstate__(self, state):
-        self._buffer, self._offset = state
+        # rebuild the cached offsets and size from the buffer as for any view
+        self.__dict__.update(self._from_buffer(*state).__dict__)
 
     @classmethod
     def _gen_data_paths(cls, base=None):
